@@ -109,6 +109,7 @@ def step : List String → String
     match parseWiring w, n.toNat?, parseMat val, parseVec ax, parseVec b, parseRat al, parseRat be with
     | some w, some n, some M, some ax, some b, some al, some be =>
       if kind ≠ "dense" ∧ kind ≠ "sparse" then "bad-op"
+      else if n > 12 then "bad-op"     -- the list-backed exact factorisation is only practical for small matrices
       else if blen ax.length b.length ≠ some n then "err:shape"
       else match bigQuad w n (kind = "sparse") M (devA ax b) with
         | .error e => fmtPErr e
